@@ -43,6 +43,8 @@ def sexpr(v):
 def rstr(rng):
     return "".join(rng.choice("abcxyzQR7 _-") for _ in range(rng.randint(0, 8)))
 
+RAW_METHODS = ["type", "move", "match", "ref", "loop", "in", "mod", "use", "yield", "try", "gen", "box", "final", "where", "dyn", "async"]
+
 OPTION_PATHS = ["Option", "Option", "std::option::Option", "core::option::Option", "::std::option::Option"]
 
 _RUST_KW = set("as break const continue crate else enum extern false fn for if impl in let loop match mod move mut pub ref return self Self static struct super trait true type unsafe use where while async await dyn abstract become box do final macro override priv typeof unsized virtual yield try gen".split())
@@ -106,6 +108,14 @@ def gen_trait(rng, ti):
         if rust in used or rust in ("a", "x"): rust += f"_{mi}q"
         used.add(rust)
         rename = rng.choice([None, None, None, "GetURL", "Custom2FA", "lowercase"])
+        # one method in seven is named by a keyword and therefore written as a raw identifier (`r#type`): the `r#` is
+        # spelling, the method's name - what PascalCase applies to - is the keyword
+        raw = False
+        if rng.random() < 1 / 7:
+            kw = rng.choice(RAW_METHODS)
+            if kw not in used:
+                rust = kw; raw = True; used.add(kw)
+                if rng.random() < 0.7: rename = None
         flag = rng.choice(["", "", "", "more", "oneway"])
         explicit_lt = rng.random() < 0.3
         will_gen = rng.random() < 0.25
@@ -130,7 +140,7 @@ def gen_trait(rng, ti):
             if prn is not None and (prn in wires or prn in PNAMES):
                 prn = None
             params.append(dict(name=name, ty=ty, lit=lit, val=val, optional=optional, rename=prn, gen=gen))
-        methods.append(dict(rust=rust, rename=rename, flag=flag, explicit_lt=explicit_lt, params=params, unit_out=rng.random() < 0.3))
+        methods.append(dict(rust=rust, src=("r#" + rust) if raw else rust, rename=rename, flag=flag, explicit_lt=explicit_lt, params=params, unit_out=rng.random() < 0.3))
     return dict(idx=ti, iface=f"org.ex.T{ti}", methods=methods)
 
 def decl_str(t, m):
@@ -164,7 +174,7 @@ def emit_trait(t):
             ret = f"zlink_core::Result<impl futures_util::Stream<Item = zlink_core::Result<core::result::Result<{out}, PErr>>>>"
         else:
             ret = f"zlink_core::Result<core::result::Result<{out}, PErr>>"
-        o.append(f"        async fn {m['rust']}{g}(&mut self{ps}) -> {ret};")
+        o.append(f"        async fn {m['src']}{g}(&mut self{ps}) -> {ret};")
     o.append("    }")
     o.append("    pub fn run(out: &mut Vec<String>) {")
     for m in t["methods"]:
@@ -176,17 +186,17 @@ def emit_trait(t):
         o.append("            let net = new_net(vec![]);")
         o.append("            let mut conn = Connection::new(SSocket(net.clone()));")
         if m["flag"] == "oneway":
-            o.append(f"            let _ = block_on(conn.{m['rust']}({args}));")
+            o.append(f"            let _ = block_on(conn.{m['src']}({args}));")
         elif m["flag"] == "more":
             if m["unit_out"]:
                 o.append("            push_frames(&net, &[r#\"{\"continues\":true}\"#, r#\"{\"continues\":true}\"#, r#\"{}\"#, r#\"{}\"#]);")
             else:
                 o.append("            push_frames(&net, &[r#\"{\"parameters\":{\"v\":1},\"continues\":true}\"#, r#\"{\"parameters\":{\"v\":2},\"continues\":true}\"#, r#\"{\"parameters\":{\"v\":3}}\"#, r#\"{\"parameters\":{\"v\":4}}\"#]);")
-            o.append(f"            let items = block_on(async {{ match conn.{m['rust']}({args}).await {{ Ok(s) => {{ let mut s = Box::pin(s); let mut v = vec![]; while let Some(i) = futures_util::StreamExt::next(&mut s).await {{ v.push(cls(i)); }} v }} Err(_) => vec![\"send-failed\".to_string()] }} }});")
+            o.append(f"            let items = block_on(async {{ match conn.{m['src']}({args}).await {{ Ok(s) => {{ let mut s = Box::pin(s); let mut v = vec![]; while let Some(i) = futures_util::StreamExt::next(&mut s).await {{ v.push(cls(i)); }} v }} Err(_) => vec![\"send-failed\".to_string()] }} }});")
             o.append(f"            out.push(format!(\"{{}} => {{}}\", r###\"proxystream {d} U {1 if m['unit_out'] else 0}\"###, items.join(\" \")));")
         else:
             o.append("            push_frames(&net, &[r#\"{\"parameters\":{\"v\":7}}\"#]);")
-            o.append(f"            let _ = block_on(conn.{m['rust']}({args}));")
+            o.append(f"            let _ = block_on(conn.{m['src']}({args}));")
         o.append(f"            out.push(format!(\"{{}} => {{}}\", r###\"proxy {d} FORM plain\"###, written(&net)));")
         o.append("        }")
         if m["flag"] != "oneway":
@@ -196,7 +206,7 @@ def emit_trait(t):
                 o.append("            let net = new_net(vec![]);")
                 o.append("            let mut conn = Connection::new(SSocket(net.clone()));")
                 o.append("            push_frames(&net, &[reply]);")
-                o.append(f"            let r = block_on(conn.{m['rust']}({args}));")
+                o.append(f"            let r = block_on(conn.{m['src']}({args}));")
                 o.append(f"            out.push(format!(\"proxyreply U {1 if m['unit_out'] else 0} R {{ri}} => {{}}\", cls(r)));")
                 o.append("        }")
             # chain_ form
@@ -215,7 +225,7 @@ def emit_trait(t):
             o.append("                let net = new_net(vec![]);")
             o.append("                let mut conn = Connection::new(SSocket(net.clone()));")
             o.append(f"                if let Ok(chain) = conn.chain_call::<FirstCall, {outp}, PErr>(&Call::new(FirstCall {{ method: padded_first(pad) }})) {{")
-            o.append(f"                    if let Ok(chain) = chain.{m['rust']}({args}) {{ let _ = block_on(chain.send()); }}")
+            o.append(f"                    if let Ok(chain) = chain.{m['src']}({args}) {{ let _ = block_on(chain.send()); }}")
             o.append("                }")
             o.append("                let w = net.borrow().writes.concat(); w")
             o.append("            };")
